@@ -690,7 +690,9 @@ func search(e *env, seed uint64, n int, bins string) {
 		seig := scheme == "cenc" && i%10 == 3
 		o := fragOpts{extraMoof: r.Pick(0, 0, 1, 2, 3), extraTraf: r.Pick(0, 1, 2, 3), moofBefore: r.Bool(), wide: genWide(r, seig)}
 		wit := fmt.Sprintf("codec=%c scheme=%s key=%s iv=%s opts=%+v samples=%s", codec, scheme, hx.Hex(key), hx.Hex(ivIn), o, samplesField(samples))
-		fr := e.runFragment(codec, scheme, key, ivIn, samples, o, r)
+		// the encrypt side gets key and IV in buffers the caller re-uses from fragment to fragment (refilled in place),
+		// the decrypt side gets the key in a slice of its own: nothing may depend on the identity of the argument slices
+		fr := e.runFragment(codec, scheme, reuse(&sharedKeyBuf, key), reuse(&sharedIVBuf, ivIn), samples, o, r)
 		evals++
 		if fr.class == "panic" && mixed {
 			fail("mp4.EncryptFragment", "encrypt-panic-mixed-subsamples", wit, "EncryptFragment panics (SencBox.calcSize indexes SubSamples out of range) on a video fragment in which one sample has no protection range and another has")
@@ -931,7 +933,9 @@ func fileRoundTrip(clearRaw []byte, scheme string, key, iv []byte, npssh int) (d
 }
 
 // fileRoundTripEnc also returns the intermediate encrypted file
-func fileRoundTripEnc(clearRaw []byte, scheme string, key, iv []byte, npssh int) (dec []byte, stage string, enc []byte) {
+func fileRoundTripEnc(clearRaw []byte, scheme string, keyOwn, ivOwn []byte, npssh int) (dec []byte, stage string, enc []byte) {
+	// encrypt side: re-used caller buffers; decrypt side (further down): the key in its own slice
+	key, iv := reuse(&sharedKeyBuf, keyOwn), reuse(&sharedIVBuf, ivOwn)
 	inF, err := mp4.DecodeFile(bytes.NewReader(clearRaw))
 	if err != nil {
 		return nil, "decode-clear", nil
@@ -971,7 +975,7 @@ func fileRoundTripEnc(clearRaw []byte, scheme string, key, iv []byte, npssh int)
 		return nil, "encode-decrypted-init-" + classOf(p, err), eb.Bytes()
 	}
 	for _, sg := range encF.Segments {
-		if p := hx.Try(func() { err = mp4.DecryptSegment(sg, di, key) }); p != "" || err != nil {
+		if p := hx.Try(func() { err = mp4.DecryptSegment(sg, di, keyOwn) }); p != "" || err != nil {
 			lastErr = fmt.Sprint(p, err)
 			return nil, "decrypt-segment-" + classOf(p, err), eb.Bytes()
 		}
@@ -1292,4 +1296,16 @@ func main() {
 	default:
 		os.Exit(2)
 	}
+}
+
+// buffers a caller would re-use across calls; reuse copies v into the buffer in place and returns that slice
+var sharedKeyBuf, sharedIVBuf []byte
+
+func reuse(buf *[]byte, v []byte) []byte {
+	if cap(*buf) < 64 {
+		*buf = make([]byte, 64)
+	}
+	b := (*buf)[:len(v):len(v)]
+	copy(b, v)
+	return b
 }
